@@ -886,12 +886,27 @@ class Interp(object):
         """Explore all paths from st; returns list of Outcome.  Restarts when a candidate loop
         invariant fails (Houdini), so every invariant assumed in the result has been verified."""
         base = st
-        for attempt in range(32):
+        for attempt in range(48):
             self.inv_failed = set()
             outs = self._explore(base.clone())
             if not self.inv_failed:
                 return outs
-            self.inv_disabled |= self.inv_failed
+            # "this slot keeps its entry value" is not an assumption like the others: it fixes the slot to a concrete value, under
+            # which relations between that slot and others are judged in a configuration that cannot occur.  When one of those
+            # fails, only they are withdrawn in this round; the other candidates are judged again without them.
+            # Likewise a wrong bound on a single slot (slot >= / <= its entry value, a guard) can contradict a true relation between
+            # slots and make the incomplete prover fail the relation.  So candidates are withdrawn in tiers: per-slot constancy
+            # first, then per-slot bounds, then relations between slots; a result is only returned from a round in which every
+            # assumed candidate was verified, so the order affects precision, not soundness.
+            def tier(k):
+                last = k[-1]
+                if last == 'same':
+                    return 0
+                if last == 'x' or (len(k) >= 2 and k[-2] in ('ord', 'aff')):
+                    return 2
+                return 1
+            lowest = min(tier(k) for k in self.inv_failed)
+            self.inv_disabled |= set(k for k in self.inv_failed if tier(k) == lowest)
         raise Budget('loop invariant inference did not stabilise')
 
     def _explore(self, st):
@@ -1160,6 +1175,25 @@ class Interp(object):
         key0 = (fn.name, header)
         used = []
         slots, cells, whole, carried = self.carried_slots(st, fr, header, phis, newvals)
+        # rule-supplied candidate invariants marked 'entry': their base case is decided here, on the values with which the loop
+        # is entered (before the carried slots are replaced by fresh symbols); only those that hold are assumed at the head
+        entry_ok = {}
+        self.cur_slots = [self.slot_name(key) for (key, nv_, ty_) in slots]     # for rule hooks: names of the carried slots of this loop
+        saved_regs = dict((k, fr.regs.get(k)) for k in newvals)
+        fr.regs.update(newvals)
+        try:
+            for cand in self.h.loop_candidates(self, st, fn, header, phis):
+                if len(cand) > 2 and cand[2] == 'entry':
+                    try:
+                        entry_ok[cand[0]] = st.is_ge0(cand[1](st, fr)) is True
+                    except Exception:
+                        entry_ok[cand[0]] = False
+        finally:
+            for k, v in saved_regs.items():
+                if v is None:
+                    fr.regs.pop(k, None)
+                else:
+                    fr.regs[k] = v
         # havoc everything else the loop may write
         for (oid, off, sz) in cells:
             if (oid, off) not in carried:
@@ -1324,9 +1358,12 @@ class Interp(object):
         st.flags['hentry:%s:%s' % (fn.name, header)] = dict((n2, entry.get(n2, orig_vals.get(n2)) if self.h.widen_on_entry else entry.get(n2))
                                                              for n2 in begin)
         extra = self.h.loop_candidates(self, st, fn, header, phis)
-        for (name, lin) in extra:
+        for cand in extra:
+            name, lin = cand[0], cand[1]
             k2 = key0 + (name, 'x')
             if k2 in self.inv_disabled:
+                continue
+            if len(cand) > 2 and cand[2] == 'entry' and not entry_ok.get(name):
                 continue
             st.assume_ge0(lin(st, fr))
             used.append((name, 'x', lin))
